@@ -9,12 +9,16 @@ from pv.ref import pddl
 
 
 def gen_plan_case(ch, tier, ft=None, max_len=8, p_applicable=0.7, fluent_reading=True):
-    ft = dict(ft or G.feats(max_actions=3, max_leaves=2, forall_pre=False, nested=False, p_when=0.4, p_forall_eff=0.3))
+    ft = dict(ft or G.feats(max_actions=3, max_leaves=2, forall_pre=False, nested=False, p_when=0.4, p_forall_eff=0.3,
+                            p_partial_init=0.25))
     if not ft.get("typed_fixed"):
         ft["typed"] = not ch.flag(0.1)
     dom, objects = G.gen_domain(ch, ft)
     world = pddl.World(dom, objects)
     st = G.gen_state(ch, world)
+    if ft.get("p_partial_init") and ch.flag(ft["p_partial_init"]):
+        # some functions are left out of :init (uninitialised counters): an assign must still create them
+        st = (st[0], {k: v for k, v in st[1].items() if not ch.flag(0.3)})
     init = st
     plan = []
     ground = []
@@ -53,7 +57,7 @@ def validate_plan_case(case):
     dom, objects = case["dom"], case["objects"]
     pddl.validate_domain(dom, objects)
     w = pddl.validate_probes(dom, objects, [{"action": s[0], "args": s[1:], "state": case["init"]} for s in case["plan"]] or
-                             [])
+                             [], partial=True)     # :init may leave functions without a value
     if not case["plan"]:
         w = pddl.World(dom, objects)
     return w
